@@ -25,7 +25,7 @@ func init() { core.Register(c01{}) }
 
 func (c01) ID() string { return "C01" }
 func (c01) Rule() string {
-	return "plans: valid signatures made by the real signing API (2 signers, JWS/COSE, 3 OCI descriptors sharing digests or sizes, 3 blobs sharing sizes, metadata variants, optional expiry), then 0-4 faults on the stored signatures (bit flip, byte insert, truncation, field-level JWS / element-level COSE splice between two stored envelopes, raw prefix+suffix splice, whitespace and unprotected-header edits), then <= 12 verifications through the four entry points with mis-delivery (signature of X presented for Y, other blob, other stated content media type, other envelope media type) under every non-skip level and legal override, required metadata (subset, superset, altered) and collaborators {healthy, trust anchor missing, store error, revoked, revocation error}. non-trivial: at least one verification of a mutated or mis-delivered signature; distinct: hash of the (mutation, delivery, configuration, verdict) sequence"
+	return "plans: valid signatures made by the real signing API (2 signers, JWS/COSE, 3 OCI descriptors sharing digests or sizes, 3 blobs sharing sizes, metadata variants, optional expiry), then 0-4 faults on the stored signatures (bit flip, byte insert, truncation, field-level JWS / element-level COSE splice between two stored envelopes, raw prefix+suffix splice, whitespace and unprotected-header edits), then <= 12 verifications through the four entry points with mis-delivery (signature of X presented for Y, other blob, other stated content media type, other envelope media type) under every non-skip level and legal override, required metadata (subset, superset, altered) and collaborators {healthy, trust anchor missing, store error, revoked, revocation error}. A share of the runs keeps one verifier object for every verification of the run. non-trivial: at least one verification of a mutated or mis-delivered signature; distinct: hash of the (mutation, delivery, configuration, verdict) sequence"
 }
 func (c01) Components() map[string]string {
 	return map[string]string{
@@ -75,7 +75,7 @@ func (c01) Gen(r *rand.Rand, tier string, idx int) *core.Plan {
 		if r.IntN(3) == 0 {
 			collab = int64(1 + r.IntN(4))
 		}
-		p.Ops = append(p.Ops, core.Op{Kind: "verify", I: []int64{int64(r.IntN(4)), int64(r.IntN(total)), int64(r.IntN(6)), int64(r.IntN(3)), bits, int64(r.IntN(9)), collab, int64(r.IntN(3)), int64(r.IntN(8) / 7)}})
+		p.Ops = append(p.Ops, core.Op{Kind: "verify", I: []int64{int64(r.IntN(4)), int64(r.IntN(total)), int64(r.IntN(6)), int64(r.IntN(3)), bits, int64(r.IntN(9)), collab, int64(r.IntN(3)), int64(r.IntN(8) / 7), int64(core.Pick(r, 0, 0, 0, 1, 1, 2, 3))}})
 	}
 	return p
 }
@@ -310,7 +310,23 @@ func (l c01) Exec(env *core.Env) *core.Result {
 					want.IsBlob, want.BlobContent, want.MediaType, want.CheckMediaType = true, content, stated, stated != ""
 				case 3:
 					content := blobs[art-3]
-					_, outcome, verr = notation.VerifyBlob(ctx, v, bytes.NewReader(content), sg.bytes, notation.VerifyBlobOptions{
+					// the blob stream may fail part-way: what was delivered up to then is not the artifact
+					rd := &faultyReader{data: content, errAt: -1}
+					switch op.Int(9) {
+					case 1: // fails exactly where another (signed) blob ends
+						rd.errAt = len(blobs[0])
+					case 2:
+						rd.errAt = len(content) / 2
+					case 3: // short reads only
+						rd.chunk = 97
+					}
+					if rd.errAt >= len(content) {
+						rd.errAt = -1
+					}
+					if rd.errAt >= 0 {
+						res.Probe("blob_stream_failed_while_verifying")
+					}
+					_, outcome, verr = notation.VerifyBlob(ctx, v, rd, sg.bytes, notation.VerifyBlobOptions{
 						BlobVerifierVerifyOptions: notation.BlobVerifierVerifyOptions{SignatureMediaType: mediaType, UserMetadata: required}, ContentMediaType: stated})
 					want.IsBlob, want.BlobContent, want.MediaType, want.CheckMediaType = true, content, stated, stated != ""
 				}
@@ -322,7 +338,7 @@ func (l c01) Exec(env *core.Env) *core.Result {
 				if verr == nil {
 					verdict = "accepted"
 				}
-				key := fmt.Sprintf("entry=%d sig=%s presented-for=%d level=%s%v required=%d collab=%d stated=%q envelope-type-swapped=%v", entry, sg.origin, art, levelName, override, op.Int(5)%9, collab, stated, op.Int(8) == 1)
+				key := fmt.Sprintf("entry=%d sig=%s presented-for=%d level=%s%v required=%d collab=%d stated=%q envelope-type-swapped=%v stream=%d", entry, sg.origin, art, levelName, override, op.Int(5)%9, collab, stated, op.Int(8) == 1, op.Int(9))
 				trace = append(trace, map[string]any{"verify": key, "verdict": verdict})
 				sim.Abstract(key + "|" + verdict)
 				_ = enf
